@@ -53,7 +53,7 @@ def players(run, thorough):
     uuids = ['00000000-0000-0000-0000-00000000000%d' % i for i in range(4)]
     fields = ('name', 'properties', 'gamemode', 'ping', 'display_name')
     ctx = ConnectionContext(protocol_version=757)
-    for h in range(120 if thorough else 12):
+    for h in range(400 if thorough else 16):
         if not run.mine(h):
             continue
         real = P.PlayerList()
@@ -146,7 +146,7 @@ def maps(run, thorough):
     from minecraft.networking.connection import ConnectionContext
     from minecraft.networking.packets import PacketBuffer
     rng = run.rng('maps')
-    for h in range(60 if thorough else 8):
+    for h in range(240 if thorough else 12):
         if not run.mine(h):
             continue
         pv = rng.choice((47, 107, 340, 404, 498, 578, 754, 757))
